@@ -3,7 +3,7 @@
    give the row structure for ALL record lists - empty files, records without bases, records shorter than k, m or
    w, all-ambiguous records included - and the facts behind the repaired defects D4-D6. *)
 From Coq Require Import NArith ZArith List String.
-From KT Require Import Model.Show Model.Ops Model.Rows Model.Pipeline Model.Cli Proof.DegenerateProof Proof.PipelineProof.
+From KT Require Import Model.Show Model.Ops Model.Rows Model.Pipeline Model.Cli Proof.DegenerateProof Proof.PipelineProof Proof.MinConc Proof.NoSentinel.
 Import ListNotations.
 Notation length := List.length.
 Notation concat := List.concat.
@@ -37,6 +37,17 @@ Theorem C16_whole_read_window_never_underflows :
   forall w m s, (w = 0 \/ m <= w)%nat -> (m <= eff_w w m s)%nat.
 Proof. exact eff_w_ge_m. Qed.
 
+(* no sentinel is ever written as if it were data: every run of every record, in both window modes, carries a
+   value below u64::MAX (whose rendering would be the all-T m-mer) *)
+Theorem C16_no_placeholder_in_minimiser_output :
+  forall w m s, (1 <= m)%nat -> (m <= 31)%nat -> (w = 0 \/ m <= w)%nat ->
+  Forall (fun o : N * nat * nat => fst (fst o) < 18446744073709551615) (rec_runs w m s).
+Proof.
+  intros w m s H1 H2 Hw. unfold rec_runs.
+  assert (He : (1 <= m <= eff_w w m s)%nat) by (split; [exact H1|apply eff_w_ge_m; exact Hw]).
+  rewrite (mg_run_grp nt4m (eff_w w m s) m He H2 s). exact (spec_runs_below_sentinel nt4m (eff_w w m s) m He H2 s).
+Qed.
+
 (* whole-sequence CGR: one row per record, or the run is refused because some record holds a non-nucleotide byte *)
 Theorem C16_cgr_rows_or_refusal :
   forall S recs,
@@ -59,4 +70,5 @@ Print Assumptions C16_coverage_writer_drops_no_record.
 Print Assumptions C16_s2m_one_line_per_record.
 Print Assumptions C16_whole_read_window_never_underflows.
 Print Assumptions C16_cgr_rows_or_refusal.
+Print Assumptions C16_no_placeholder_in_minimiser_output.
 Print Assumptions C16_empty_input.
